@@ -632,7 +632,7 @@ def c03_groups(tier, tag='C03'):
     gs.append(Group(tag + '.tLweSymEncryptT', 'c03_encrypt.c', 'h_tLweSymEncrypt', extract=[(TL, 'tLweSymEncryptT')], defines={'H_TLWE_ENC': None, 'ENC_T': None}))
     gs.append(Group(tag + '.tLwePhase', 'c03_encrypt.c', 'h_tLwePhase', extract=[(TL, 'tLwePhase')], loops=True, defines={'H_TLWE_PHASE': None}, replay='tgswdec'))
     gs.append(Group(tag + '.tLweApproxPhase', 'c03_encrypt.c', 'h_tLweApproxPhase', extract=[(TL, 'tLweApproxPhase')], loops=True, defines={'H_TLWE_PHASE': None}, replay='tgswdec'))
-    gs.append(Group(tag + '.tLweSymDecrypt+T', 'c03_encrypt.c', 'h_tLweSymDecrypt', extract=[(TL, 'tLweSymDecrypt'), (TL, 'tLweSymDecryptT')], defines={'H_TLWE_DEC': None}))
+    gs.append(Group(tag + '.tLweSymDecrypt+T', 'c03_encrypt.c', 'h_tLweSymDecrypt', extract=[(TL, 'tLweSymDecrypt'), (TL, 'tLweSymDecryptT')], defines={'H_TLWE_DEC': None}, replay='tgswdec'))
     gs.append(Group(tag + '.tGswSymEncrypt+tGswEncryptB', 'c03_encrypt.c', 'h_tGswWrappers', extract=[(TG, 'tGswSymEncrypt'), (TG, 'tGswEncryptB')], defines={'H_TGSWWRAP': None}))
     for (K, L) in ([(1, 2), (2, 3)] if tier == 'quick' else [(1, 1), (1, 2), (1, 3), (1, 4), (2, 2), (2, 3), (3, 2)]):
         gs.append(Group('%s.tGswSymDecrypt.k=%d.l=%d' % (tag, K, L), 'c03_encrypt.c', 'h_tGswSymDecrypt', extract=[(TG, 'tGswSymDecrypt')], loops=True,
